@@ -32,7 +32,9 @@ enum Status {
 struct Inner {
   active: bool,
   status: Vec<Status>,
-  turn: Option<usize>,
+  /// per thread: released and not yet woken up (a single shared slot could be
+  /// overwritten before a slow thread has seen its turn)
+  granted: Vec<bool>,
   log: Vec<Value>,
   objs: HashMap<usize, usize>,
   idents: HashMap<usize, usize>,
@@ -57,7 +59,7 @@ fn sched() -> &'static Arc<Sched> {
       m: Mutex::new(Inner {
         active: false,
         status: vec![],
-        turn: None,
+        granted: vec![],
         log: vec![],
         objs: HashMap::new(),
         idents: HashMap::new(),
@@ -125,10 +127,10 @@ pub fn on_point(id: &'static str, obj: usize, arg: usize) {
   }
   g.status[tid] = Status::Parked(id, obj, arg);
   s.cv.notify_all();
-  while g.turn != Some(tid) {
+  while !g.granted[tid] {
     g = s.cv.wait(g).unwrap();
   }
-  g.turn = None;
+  g.granted[tid] = false;
   g.status[tid] = Status::Running;
   if id == "replace.index.locked" {
     let o = g.objs.get(&obj).copied().unwrap_or(0);
@@ -232,7 +234,7 @@ pub fn run_program(pid: u64, prog: &Value) -> Vec<Value> {
     let mut g = s.m.lock().unwrap();
     g.active = true;
     g.status = vec![Status::Running; n];
-    g.turn = None;
+    g.granted = vec![false; n];
     g.log.clear();
     g.objs.clear();
     g.idents.clear();
@@ -342,7 +344,7 @@ pub fn run_program(pid: u64, prog: &Value) -> Vec<Value> {
       c
     };
     g.status[choice] = Status::Running;
-    g.turn = Some(choice);
+    g.granted[choice] = true;
     s.cv.notify_all();
   }
   let deadlocked = outcome == "deadlock";
